@@ -2677,6 +2677,13 @@ func (dsc *dataStoreCommand) setOperationStore(
 		return
 	}
 
+	if d.count == 0 {
+		// an empty result leaves no key behind
+		dsc.ds.data.remove(destination)
+		output.data = respInt(0)
+		return
+	}
+
 	newSk := dsc.ds.newStoreKeyUnlocked(destination)
 	newSk.flags = FLAG_KEY_TYPE_SET
 	newSk.payload = d
